@@ -109,9 +109,12 @@ async def start_client(
 
                 if rate_limiter and rate_limiter.is_limited(remote_addr, message):
                     if command == "EVENT":
+                        event_id = ""
+                        if isinstance(message[1], dict):
+                            event_id = message[1].get("id", "")
                         response = [
                             "OK",
-                            message[1]["id"],
+                            event_id,
                             False,
                             "rate-limited: slow down",
                         ]
